@@ -740,7 +740,7 @@ func TestMC_C06(t *testing.T) {
 	c := verifmc.Start(t, "C06", "exploration")
 	defer c.Finish()
 	thorough := c.Thorough()
-	c.SetRule("four full products: outputs-deep (every list of 0..2 outputs over the 360-member output menu type{script,withdrawal} x amount{0,1,255,256,2^64} x keys{0,1,2} x mask{zero,set} x script{0,3} x withdrawal{none,empty,set}), frame (every list of 0..2 inputs over {ordinary idx 0, ordinary idx 1024, deposit empty, deposit set, mint, genesis} x every list of 0..2 outputs over a reduced output menu x references 0..2 x extra len{0,1,256}), authorization (none | 1..2 signature maps each a subset of size <=2 of indexes {0,1,65535} | aggregate over every subset of size <=3 of {0,1,7,8,15,16,17,64,65535}) x frames x asset{2}, and every <=2-leaf perturbation (2 alternatives per leaf) of a fully populated transaction; then for seed encodings every single-byte substitution by all 255 other values, every truncation, every one-byte extension. A structure case is distinct by its full field tuple; a byte case by (seed, kind, position, outcome)")
+	c.SetRule("history part: every sequence of length 1..3 (thorough 4) over {PayloadMarshal, PayloadHash, Marshal, Unmarshal(Marshal)} on one object (built and freshly decoded) for 2 payload frames x 6 authorization forms, every step compared with independent fresh objects; aggregate boundary: signer counts {1,2,255,256,257,258,1000} x spacing {1,16,17,64} through the full round trip and through EncodeAggregatedSignature/ReadAggregatedSignature directly; five full products: outputs-deep (every list of 0..2 outputs over the 360-member output menu type{script,withdrawal} x amount{0,1,255,256,2^64} x keys{0,1,2} x mask{zero,set} x script{0,3} x withdrawal{none,empty,set}), frame (every list of 0..2 inputs over {ordinary idx 0, ordinary idx 1024, deposit empty, deposit set, mint, genesis} x every list of 0..2 outputs over a reduced output menu x references 0..2 x extra len{0,1,256}), authorization (none | 1..2 signature maps each a subset of size <=2 of indexes {0,1,65535} | aggregate over every subset of size <=3 of {0,1,7,8,15,16,17,64,65535}) x frames x asset{2}, and every <=2-leaf perturbation (2 alternatives per leaf) of a fully populated transaction; then for seed encodings every single-byte substitution by all 255 other values, every truncation, every one-byte extension. A structure case is distinct by its full field tuple; a byte case by (seed, kind, position, outcome)")
 	c.Assume("field tuple rendering (length-prefixed hex, decimal amounts) is the equality on transactions; nil and empty slices / strings are the same value",
 		"menus hold canonical in-memory forms only (non-negative amounts, non-nil signatures, either signature maps or an aggregate)",
 		"128-bit digests index the global sets; every hit is confirmed by rebuilding both cases and comparing real bytes and tuples before it is reported",
@@ -823,6 +823,7 @@ func TestMC_C06(t *testing.T) {
 			}
 			return tx
 		}},
+		c06AggBoundaryProduct(),
 	}
 	var totalStructs int64
 	for pi, p := range st.prods {
@@ -833,6 +834,8 @@ func TestMC_C06(t *testing.T) {
 			break
 		}
 	}
+	c06AggDirect(c, st)
+	c06Sequences(c, st)
 	st.found.flush(c)
 	var distinctPayloads int
 	for i := range st.shards {
